@@ -11,6 +11,8 @@ NEUTRALS = []
 
 # changes made by sub-agents that were given only the property text (see /verif/seeded/<id>/): each must stay reported
 SEEDED = [
+    {'name': 'seeded change C13-r5b', 'seed': 'C13-r5b', 'expect': '|NA-lcm|'},
+    {'name': 'seeded change C13-r5a', 'seed': 'C13-r5a', 'expect': '|ENSURE-whole|'},
     {'name': 'seeded change C13-r4b', 'seed': 'C13-r4b', 'expect': '|UNIT-pair|'},
     {'name': 'seeded change C13-r4a', 'seed': 'C13-r4a', 'expect': '|F4d-plumb|'},
     {'name': 'seeded change C13-r3', 'seed': 'C13-r3', 'expect': '|F4d-plumb|'},
